@@ -1,5 +1,6 @@
 import CprocVerif.Lemmas.InitEmit3
 import CprocVerif.Lemmas.InitDec
+import CprocVerif.Lemmas.InitParse2
 
 /-!
 # C07 — initialised objects contain exactly the specified initial image
@@ -247,6 +248,85 @@ theorem partial_overlap_counterexample :
   · revert h; unfold Disj Init.lo Init.hi; decide
   · revert h; unfold Inside Init.lo Init.hi; decide
   · revert h; unfold Inside Init.lo Init.hi; decide
+
+/-! ## (c) `parseinit`: the cursor machine -/
+
+/-- **`depth_bound`.**  `subobj` is the only operation that moves `p->sub` up, and it refuses
+("internal error: too many designators", exit 1) instead of writing `obj[32]`: for every type,
+initialiser tree and flag, a successful `parseinit` ends with `sub` and `cur` inside `obj[0..31]`… -/
+theorem depth_bound {t : Ty} {inc : Bool} {i : Ini} {st : St} (e : parseinit t inc i = .ok st) :
+    st.sub < 32 ∧ ∀ c, st.cur = some c → c < 32 := parseinit_bnd e
+
+/-- … and so does every intermediate step: each primitive of the machine keeps the indices
+inside the array or returns an error (never an out-of-bounds slot). -/
+theorem depth_bound_steps {st st' : St} (h : Bnd st) :
+    (∀ t off, subobj st t off = .ok st' → Bnd st') ∧ (focus st = .ok st' → Bnd st') ∧
+    (∀ ds, designator st ds = .ok st' → Bnd st') ∧ (∀ fuel, advance fuel st = .ok st' → Bnd st') ∧
+    (∀ fuel e, placeExpr fuel st e = .ok st' → Bnd st') ∧ (∀ ds i, parseItem st ds i = .ok st' → Bnd st') :=
+  ⟨fun _ _ e => subobj_bnd h e, fun e => focus_bnd h e, fun _ e => designator_bnd h e,
+    fun _ e => advance_bnd h e, fun _ _ e => placeExpr_bnd h e, fun ds i e => parseItem_bnd i st st' ds h e⟩
+
+/-- 32 nested designators are refused, 31 are fine (`int a[1]…[1] = {[0]…[0] = 7}`). -/
+def nestTy : Nat → Ty
+  | 0 => .scalar 4 (.int 6 true)
+  | n + 1 => .array 1 (nestTy n)
+example : (match parseinit (nestTy 32) false
+    (.list (.cons (List.replicate 32 (.idx 0)) (.expr (.num 7 true 0 0)) .nil)) with
+    | .error (.diag _) => true | _ => false) = true := by decide
+example : (match parseinit (nestTy 31) false
+    (.list (.cons (List.replicate 31 (.idx 0)) (.expr (.num 7 true 0 0)) .nil)) with
+    | .ok st => st.log == [.add ⟨0, 4, 0, 0, .int 4 7⟩] | _ => false) = true := by decide
+
+/-- **`offsets_inside`.**  For every well-formed type of known size (members inside their
+struct/union, arrays non-empty) and EVERY initialiser tree (designators, overriding, brace
+elision, strings …): each initialiser `parseinit` produces, and each range it clears, lies inside
+the object: `start ≤ stop ≤ sizeof`. -/
+theorem offsets_inside {t : Ty} {i : Ini} {st : St} (ht : TyOk t) (e : parseinit t false i = .ok st) :
+    ∀ ev ∈ st.log, match ev with
+      | .add x => x.start ≤ x.stop ∧ x.stop ≤ t.size
+      | .clear a b => a ≤ b ∧ b ≤ t.size := by
+  intro ev hev
+  have := (parseinit_J ht e).log ev hev
+  cases ev <;> exact this
+
+/-- The statement without the hypothesis on the type is false: a flexible array member
+(`struct {int n; int a[];} = {1, {2}}`, member array of 0 elements) is initialised outside the
+object — the input on which `emitdata`'s `assert(offset <= d->type->size)` fails (C19
+`flexible-init-assert`). -/
+def offsets_inside_full : Prop :=
+  ∀ (t : Ty) (i : Ini) (st : St), parseinit t false i = .ok st →
+    ∀ ev ∈ st.log, match ev with
+      | .add x => x.stop ≤ t.size
+      | .clear _ b => b ≤ t.size
+
+def logStops (r : Except Err St) : List Nat :=
+  match r with
+  | .ok st => st.log.map (fun ev => match ev with | .add x => x.stop | .clear _ b => b)
+  | .error _ => []
+
+/-- `int a[0] = {1};` (a zero-length array, GNU) or equally a flexible array member. -/
+theorem offsets_inside_counterexample : ¬ offsets_inside_full := by
+  intro h
+  have key : logStops (parseinit (.array 0 (.scalar 4 (.int 6 true))) false
+      (.list (.cons [] (.expr (.num 1 true 0 0)) .nil))) = [4] := by decide
+  cases hr : parseinit (.array 0 (.scalar 4 (.int 6 true))) false
+      (.list (.cons [] (.expr (.num 1 true 0 0)) .nil)) with
+  | error e => rw [hr] at key; simp [logStops] at key
+  | ok st =>
+    rw [hr] at key
+    simp only [logStops] at key
+    match hl : st.log with
+    | [] => rw [hl] at key; simp at key
+    | ev :: rest =>
+      rw [hl] at key
+      have := h _ _ st hr ev (by rw [hl]; simp)
+      cases ev with
+      | add x => simp [Ty.size] at key this; omega
+      | clear a b => simp [Ty.size] at key this; omega
+
+example : TyOk (.agg false 1 8 (.cons (some "a") (.scalar 1 (.int 1 true)) 0 0 0
+    (.cons (some "b") (.scalar 4 (.int 6 true)) 0 8 20 (.cons (some "v") (.array 2 (.scalar 2 (.int 4 true))) 4 0 0 .nil)))) := by
+  simp [TyOk, MsOk, Ty.size]
 
 /-! ## non-vacuity -/
 
